@@ -131,6 +131,7 @@ func genC34Case(c *mon.Ctx, i int, pool []*cdnFile, adversarial bool) c34Case {
 			// requests, the token dies on a LATER request of such a plan and the
 			// master then serves the file itself instead of redirecting again
 			cs.Mode = "inline"
+			cs.TailActual = false // drawn for the previous mode; CDN files announce the nominal tail limit (see above)
 			cs.Part = []int{36864, 102400, 102400, 196608, 196608, 393216, 786432}[r.IntN(7)]
 			planLen := map[int]int{36864: 2, 102400: 3, 196608: 2, 393216: 2, 786432: 2}[cs.Part]
 			for tries := 0; tries < 200; tries++ { // a file with at least one complete part, as small as possible
